@@ -25,16 +25,50 @@ def base_wire(dump, tid):
         if "string" in c: return "str_constrained"
     return None
 
+def native_path(dump, tid):
+    """path of the string-formatted native behind tid: the native itself, or an unconstrained newtype over one"""
+    es = entries(dump); e = es.get(tid)
+    if e is None: return None
+    if e["kind"] == "native" and not e["parameters"] and ("FromStr" in e["impls"] or "Display" in e["impls"]): return e["type_name"]
+    if e["kind"] == "newtype" and e["constraints"] is None:
+        i = es.get(e["type_id"])
+        if i and i["kind"] == "native" and not i["parameters"] and ("FromStr" in i["impls"] or "Display" in i["impls"]): return i["type_name"]
+    return None
+
+def native_paths(dump, tid):
+    """every native path reachable through the string-wire structure of tid (newtype / untagged variants)"""
+    es = entries(dump); e = es.get(tid); out = set()
+    p = native_path(dump, tid)
+    if p: out.add(p)
+    if e and e["kind"] == "enum":
+        for v in e["variants"]:
+            d = v["details"]
+            if isinstance(d, dict) and "item" in d: out |= native_paths(dump, d["item"])
+    return out
+
 def string_wire(dump, tid):
-    """kinds C11 quantifies over: base kinds and untagged enums all of whose variants are items of base kinds"""
+    """kinds C11 quantifies over: base kinds, newtypes over string-formatted natives, and untagged enums all of
+    whose variants are items of those kinds"""
     es = entries(dump); e = es.get(tid)
     b = base_wire(dump, tid)
     if b: return b
-    if e and e["kind"] == "enum" and e["tag"] == "untagged" and e["variants"] and \
-            all(isinstance(v["details"], dict) and "item" in v["details"] and base_wire(dump, v["details"]["item"])
-                for v in e["variants"]):
-        return "untagged_strings"
+    if e and e["kind"] == "newtype" and native_path(dump, tid): return "native_newtype"
+    if e and e["kind"] == "enum" and e["tag"] == "untagged" and e["variants"]:
+        items = [v["details"]["item"] if isinstance(v["details"], dict) and "item" in v["details"] else None for v in e["variants"]]
+        if all(i is not None and base_wire(dump, i) for i in items): return "untagged_strings"
+        if all(i is not None and (base_wire(dump, i) or native_path(dump, i)) for i in items): return "untagged_natives"
     return None
+
+# probe pool for string-formatted natives: valid and near-valid spellings for the formats typify recognises and for
+# formats a change might start recognising (times, durations, hostnames, uris, ...)
+NATIVE_PROBES = [
+    "2024-02-29T13:45:10Z", "2024-02-29T13:45:10.250Z", "2024-02-29T13:45:10+02:00", "2024-02-29 13:45:10 UTC", "2024-02-29 13:45:10Z",
+    "2024-02-29t13:45:10z", "2024-02-29T13:45:10", "2024-02-29T13:45:10.250", "2024-02-29 13:45:10", "2024-02-29T13:45", "2023-02-29T00:00:00Z",
+    "2024-02-29", "2024-2-9", "20240229", "+2024-02-29", "2024-13-01", "13:45:10", "13:45:10.5", "13:45:10Z", "13:45", "P1DT2H", "PT5S",
+    "67e55044-10b1-426f-9247-bb680e5fe0c8", "67E55044-10B1-426F-9247-BB680E5FE0C8", "67e5504410b1426f9247bb680e5fe0c8",
+    "urn:uuid:67e55044-10b1-426f-9247-bb680e5fe0c8", "{67e55044-10b1-426f-9247-bb680e5fe0c8}", "67e55044-10b1-426f-9247-bb680e5fe0c",
+    "1.2.3.4", "01.2.3.4", "1.2.3", "255.255.255.255", "256.1.1.1", "::1", "0:0:0:0:0:0:0:1", "::ffff:1.2.3.4", "fe80::1%eth0", "[::1]",
+    "1.2.3.4/24", "fd00::/8", "example.com", "http://example.com/a?b#c", "a@b.co", "42", "-1.5", "1e3", "true", "", " ", "x"]
 
 def string_probes(dump, tid, rng):
     """probe strings for a string-wire type: members, non-members, odd casings, boundary lengths, multi-byte"""
@@ -61,6 +95,7 @@ def string_probes(dump, tid, rng):
             inner = es.get(e["type_id"])
             if inner and inner["kind"] in ("enum", "newtype"): for_entry(inner)
     for_entry(e)
+    if native_paths(dump, tid): out = NATIVE_PROBES + out
     seen = set(); res = []
     for s in out:
         if s not in seen: seen.add(s); res.append(s)
